@@ -676,6 +676,19 @@ def post_c07_removal(case, st):
         if not ok:
             out.append(viol("C07", "removal", c2, c2.v.reason, c2.v.owner, ext, c2.v.ctx,
                             "after removing %r from require: expected rejection %r, got %s" % (ext, expect, obs.brief())))
+            continue
+        # same removal on a parser object that has just accepted the fully required script: the extensions of the
+        # previous parse must not carry over
+        ns = seams.load()
+        p = ns.parser.Parser()
+        seams.run_parse(case.text, parser=p, want_tree=False)
+        o3 = seams.run_parse(c2.text, parser=p, want_tree=False)
+        st.executions += 2
+        if not (o3.verdict == "REJ" and o3.error == obs.error):
+            v = viol("C07", "removal-reused-parser", c2, c2.v.reason, c2.v.owner, ext, c2.v.ctx,
+                     "a parser that had just accepted the fully required script gives %s for the script without %r" % (o3.brief(), ext))
+            v["prior_hex"] = case.text.hex()
+            out.append(v)
     return out
 
 
